@@ -2,7 +2,7 @@
    The run of one handler on one file is a program over the abstract file system (Fs.v, Helper.v);
    [s_hist] is the list of ALL file-system states the run goes through (one per issued operation),
    so a statement about every element of s_hist is a statement about every kill point. *)
-From AD Require Import Bytes Outcome Fs Helper HelperProofs.
+From AD Require Import Bytes Outcome Fs Helper HelperProofs Rewrite Cleanup CheckPredicts Rerun.
 
 (* every intermediate state is a pre-commit state, except possibly one last state produced by
    rename(tmp, p) from a pre-commit state; holds for every handler result (also errors and panics),
@@ -32,7 +32,21 @@ Proof. intros e meta f0 p fo y f. exact (rename_commits e meta f0 p (tmp_path p)
 Theorem C12_tmp_name_is_not_the_file : forall p, tmp_path p <> p.
 Proof. exact tmp_path_neq. Qed.
 
+(* the rerun converges: from ANY pre-commit state - that is, from the tree a kill at any instant before the
+   switch leaves behind, whatever temporary file is still there - a run that meets no failure reports Replaced
+   and leaves the file in exactly its final state (content, mode, mtime, owner as far as permitted; temporary
+   name gone; every other name as it was) *)
+Theorem C12_rerun_converges : forall e p prof eager handler f0 ip meta y f,
+  names f0 p = Some ip -> inodes f0 ip = Some meta -> i_nlink meta = 1 ->
+  ip < next_ino f0 -> names f0 (tmp_path p) <> Some ip ->
+  handler (i_data meta) = Ok (y, true) ->
+  pre_commit f0 (tmp_path p) f ->
+  snd (run_handler e None Real prof eager handler p (init_sim f)) = Some Replaced /\
+  committed e meta f p (tmp_path p) y (s_fs (fst (run_handler e None Real prof eager handler p (init_sim f)))).
+Proof. exact rerun_converges. Qed.
+
 Print Assumptions C12_atomic.
 Print Assumptions C12_precommit_is_original.
 Print Assumptions C12_commit_is_final.
 Print Assumptions C12_tmp_name_is_not_the_file.
+Print Assumptions C12_rerun_converges.
